@@ -154,7 +154,10 @@ fn apply_wide_word_boundaries(
 
     #[allow(clippy::bool_to_int_with_if)]
     let expected_start = if start < mat.start { 1 } else { 0 };
-    match regex.find(&unwiden_mem) {
+    // Search from the expected start, and not from the previous character: this character is
+    // only there to check word boundaries, but a match could start on it (for example with
+    // overlapping matches), which would hide the match that is being checked.
+    match regex.find_at(&unwiden_mem, expected_start) {
         Some(m) if m.start == expected_start => {
             // Modify the match end. This is needed because the application of word boundary
             // may modify the match. Since we matched on non wide mem though, double the size.
